@@ -392,3 +392,109 @@ func init() {
 		Doc: "no dead attributes in grammar.y: every secondary attribute ($<tag>$ other than the nonterminal's own value) that a production sets is read ($<tag>k) by a production using that nonterminal, directly or after being passed up by default/copy actions — isExpr, comma and the like still decide what they were computed for",
 		Run: runDeadAttributes})
 }
+
+// ---- partial interface equality (C01.R9 / C13.R8) ----
+
+// In Go, `a == b` on two interface values panics at run time when both hold the same uncomparable dynamic type. Python
+// objects are Go interface values and three built-in kinds are uncomparable (py.Tuple and py.Bytes are slices,
+// py.StringDict is a map), so an identity or equality shortcut written as `a == b` on two arbitrary objects crashes
+// for `t is t`, `d is d`, `(1,2) in [(1,2)]`. The comparison is total when one operand is statically known to hold a
+// comparable dynamic type: nil, or one of the package-level singletons (None, True, False, NotImplemented, …).
+func comparableSingleton(info *types.Info, e ast.Expr) bool {
+	e = unparen(e)
+	var obj types.Object
+	switch x := e.(type) {
+	case *ast.Ident:
+		if x.Name == "nil" {
+			return true
+		}
+		obj = info.Uses[x]
+	case *ast.SelectorExpr:
+		obj = info.Uses[x.Sel]
+	}
+	switch o := obj.(type) {
+	case *types.Const:
+		return true
+	case *types.Var:
+		// a package-level variable of concrete comparable type, or of interface type initialised once from one
+		if o.Parent() != nil && o.Parent() == o.Pkg().Scope() {
+			if _, isIface := o.Type().Underlying().(*types.Interface); !isIface {
+				return types.Comparable(o.Type())
+			}
+			switch o.Name() {
+			case "None", "True", "False", "NotImplemented", "Ellipsis", "StopIteration":
+				return true
+			}
+		}
+	}
+	return false
+}
+
+func runPartialEquality(c *Ctx, r *Rep) {
+	n, nbad := 0, 0
+	for _, p := range c.All {
+		s := shortPkg(p.PkgPath)
+		if !(s == "py" || s == "vm" || strings.HasPrefix(s, "stdlib")) {
+			continue
+		}
+		info := p.TypesInfo
+		for _, file := range c.Files(p) {
+			for _, d := range file.Decls {
+				fd, ok := d.(*ast.FuncDecl)
+				if !ok || fd.Body == nil {
+					continue
+				}
+				id := declID(p, fd)
+				ast.Inspect(fd.Body, func(nd ast.Node) bool {
+					be, ok := nd.(*ast.BinaryExpr)
+					if !ok || (be.Op != token.EQL && be.Op != token.NEQ) {
+						return true
+					}
+					tx, ok1 := info.Types[be.X]
+					ty, ok2 := info.Types[be.Y]
+					if !ok1 || !ok2 || tx.Type == nil || ty.Type == nil {
+						return true
+					}
+					isObj := func(t types.Type) bool {
+						_, ok := t.Underlying().(*types.Interface)
+						return ok && strings.HasSuffix(t.String(), "/py.Object")
+					}
+					if !isObj(tx.Type) || !isObj(ty.Type) {
+						return true
+					}
+					n++
+					if comparableSingleton(info, be.X) || comparableSingleton(info, be.Y) {
+						return true
+					}
+					nbad++
+					key := fmt.Sprintf("ifaceeq|%s|%s", id, exprStr(be))
+					if why, ok := confirmedIfaceEq[strings.TrimPrefix(key, "ifaceeq|")]; ok {
+						r.ok(key, be.Pos(), "reviewed: %s", why)
+						return true
+					}
+					r.bad(key, be.Pos(), "`%s` compares two arbitrary Python objects with Go's interface equality: when both are tuples, bytes or dicts (uncomparable Go types) the comparison panics at run time — `t is t`, `d is d`, `(1, 2) in [(1, 2)]` end in SystemError; use an identity helper that handles slice- and map-backed objects", exprStr(be))
+					return true
+				})
+			}
+		}
+	}
+	r.ok("ifaceeq|census", token.NoPos, "%d comparisons between two py.Object values examined; each has a nil/singleton operand of comparable type or is a reviewed row", n)
+}
+
+// confirmedIfaceEq: comparisons of two objects whose dynamic types are known comparable from context.
+var confirmedIfaceEq = map[string]string{
+	"py.Is|a == b":                                  "guarded by reflect: reached only when both dynamic types are identical and comparable",
+	"py.ExceptionGivenMatches|err == exc":           "both are exception classes or instances (*Type / *Exception pointers); the tuple case is handled before",
+	"py.check_duplicates|list.Items[j] == o":        "the list holds the bases of a class, validated to be *Type pointers",
+	"py.tail_contains|list.Items[j] == o":           "MRO lists hold *Type pointers",
+	"py.pmerge|j_lst.Items[remain[j]] == candidate": "MRO lists hold *Type pointers",
+}
+
+func init() {
+	for _, prop := range []string{"C01", "C13"} {
+		id := map[string]string{"C01": "C01.R9", "C13": "C13.R8"}[prop]
+		register(&Rule{ID: id, Prop: prop, Floor: 1,
+			Doc: "interface equality is partial: no `==`/`!=` between two py.Object values in py, vm or stdlib unless one operand is nil or a package-level singleton of comparable type (None, True, False, NotImplemented, …) — Go panics when both hold tuples, bytes or dicts, so `is`, `in` and identity shortcuts must not be written that way",
+			Run: runPartialEquality})
+	}
+}
